@@ -752,4 +752,3 @@ func has(xs []string, s string) bool {
 	}
 	return false
 }
-
